@@ -172,6 +172,10 @@ impl RtpsWriterProxy {
         // FIND change FROM this.changes_from_writer SUCH-THAT
         // (change.sequenceNumber == a_seq_num);
         // change.status := RECEIVED; change.is_relevant := FALSE;
+        // The successor of the highest received sequence number must stay representable
+        if a_seq_num == SequenceNumber::MAX {
+            return;
+        }
         match self.reliability {
             // A reliable reader only moves forward over contiguous sequence numbers: a gap beyond a
             // change that is still missing must not make that change unreachable. The writer repeats
@@ -191,6 +195,8 @@ impl RtpsWriterProxy {
 
     /// Same as irrelevant_change_set for every sequence number in first..=last, in constant time.
     pub fn irrelevant_change_range_set(&mut self, first: SequenceNumber, last: SequenceNumber) {
+        // The successor of the highest received sequence number must stay representable
+        let last = core::cmp::min(last, SequenceNumber::MAX - 1);
         if last < first {
             return;
         }
